@@ -1,3 +1,3 @@
 SPECIFICATION Spec
 CONSTANT Which = "C09"
-INVARIANTS C09_SrvStable C09_EndsOnlyOnAllowed C09_ProbeServed C09_Isolation C09_OthersServed
+INVARIANTS C09_Quiescent C09_SrvStable C09_EndsOnlyOnAllowed C09_ProbeServed C09_Isolation C09_OthersServed C09_DriversEnd
